@@ -28,7 +28,7 @@ class EngineError(Exception):
 
 
 _ENGINE_TYPE_NAMES = ("'SNum'", "'SBV'", "'SComplex'", "'SBool'", "'SymSeq'", "'AffineSeq'", "SNum object", "SComplex object",
-                      "SBool object", "SBV object")
+                      "SBool object", "SBV object", "'IFunc'", "IFunc object", "'SObj'", "SObj object", "'_SuperProxy'", "'Opaque'")
 
 
 _ENGINE_VALUE_FILES = ("sym.py", "seq.py", "poly.py", "context.py", "numeval.py")
@@ -1416,6 +1416,11 @@ class Interp:
             raise EngineError("eval/exec")
         if fn is builtins.locals:
             return frame.vars
+        if fn is builtins.map and args and not kwargs and not callable(args[0]):
+            # map(f, xs, ...) with an interpreted function: applied eagerly (the repository code consumes the result at once)
+            return [self.call(args[0], list(t)) for t in zip(*[list(self.iterate(a)) for a in args[1:]])]
+        if fn is builtins.filter and len(args) == 2 and not kwargs and args[0] is not None and not callable(args[0]):
+            return [x for x in self.iterate(args[1]) if self.truth(self.call(args[0], [x]))]
         return self.call(fn, args, kwargs)
 
     def isinstance(self, v, t):
